@@ -69,17 +69,33 @@ Theorem C32_shutdown_empties : forall s, reachable s ->
 Proof. exact shutdown_empties. Qed.
 Print Assumptions C32_shutdown_empties.
 
+(* life cycle: the initial state has NO strand goroutine (`WNotStarted`); Run starts it
+   (`LRunStart`) at any point of the schedule - before or after calls have been issued,
+   before or after Shutdown was called - and may then return early with a listen
+   error (`LRunFail`) at any point. All theorems above quantify over these
+   schedules too; in particular C32_no_deadlock / C32_schedules_are_finite say that
+   Shutdown after a failed Run, and calls issued in between, terminate. What they
+   rest on: Run's done channel is never closed while the strand goroutine does not exist. *)
+Theorem C32_run_return_implies_strand_started : forall s,
+  reachable s -> run_done s = true -> worker s <> WNotStarted.
+Proof. exact run_return_implies_strand_started. Qed.
+Print Assumptions C32_run_return_implies_strand_started.
+
 (* non-vacuity: two callers, one request accepted before quit and abandoned by
    its caller while it still runs (the caller gets pool-closed, the request
    still registers connection 7), the other refused; Shutdown removes the
    connection and returns *)
 Example C32_example :
   let progs := [(false, [OpAdd 7%Z]); (true, [OpQuery])] in
-  let sched := [LStart 0; LAccept 0; LStart 1; LShutStart; LWaitQuit 0; LSendQuit 1; LExec;
+  let sched := [LRunStart; LStart 0; LAccept 0; LStart 1; LShutStart; LWaitQuit 0; LSendQuit 1; LExec;
                 LWorkerQuit; LShutStrandDone; LShutListener] in
   (exists s, exec (init progs) sched = Some s /\ conns s = [7%Z] /\ shut s = SDisconnect /\ worker s = WExited /\
              map results (callers s) = [[RClosed]; [RClosed]]) /\
   (exists s, exec (init progs) (sched ++ [LShutDisconnect; LRunDone; LShutFinish]) = Some s /\
-             conns s = [] /\ quiescent s = true).
-Proof. split; eexists; repeat split; vm_compute; reflexivity. Qed.
+             conns s = [] /\ quiescent s = true) /\
+  (* a call issued before Run, Run failing to listen, then Shutdown: everything returns *)
+  (exists s, exec (init progs) [LStart 0; LRunStart; LRunFail; LAccept 0; LExec; LWaitDone 0; LShutStart; LStart 1; LSendQuit 1;
+                                LWorkerQuit; LShutStrandDone; LShutListener; LShutDisconnect; LShutFinish] = Some s /\
+             quiescent s = true /\ map results (callers s) = [[ROk]; [RClosed]]).
+Proof. repeat split; eexists; repeat split; vm_compute; reflexivity. Qed.
 Print Assumptions C32_example.
